@@ -274,7 +274,10 @@ def crf_stream(g, rng, talker, n_rand, variant):
             out.append(('aaf-far-first', aaf6(0, 8 * 12345)))
         elif variant == 2:
             out.append(('aaf-aligned-first', aaf6(0, 125000 * 7)))
-        out.append(('valid-crf', g.crf(0, t0)))
+        elif variant == 3:    # media clock timestamps just below 2^64 - 2^32: the search range crosses the 64-bit wrap
+            out.append(('crf-near-wrap', g.crf(0, 2 ** 64 - 2 ** 32 - 100)))
+            out.append(('aaf-unaligned-near-wrap', aaf6(0, 3)))
+        out.append(('valid-crf', g.crf(1 if variant == 3 else 0, t0)))
         out += [('valid-aaf', aaf6(k + 1, t0 + k * 125000)) for k in range(4)]
         out.append(('aaf-misaligned', aaf6(5, t0 + 4 * 125000 + 6000)))
         out.append(('aaf-realigned', aaf6(6, t0 + 5 * 125000 + 100)))
